@@ -52,6 +52,11 @@ def _classes():
             for n in cls.nodes:
                 if n is not None:
                     n.parent, n.children, n.is_root, n.is_leaf
+                    # derived values too (depth, root, route, subtree): a cache primed here and not
+                    # invalidated by a later re-parenting of an ancestor shows up in the final observation
+                    n.depth, n.root, n.max_depth, n.siblings, list(n.ancestors), list(n.descendants), list(n.leaves)
+                    if isinstance(n, Node):
+                        n.sep, n.path_name
 
         @classmethod
         def pre(cls):
